@@ -25,15 +25,18 @@ Definition stmt_relay_stream : Prop := forall plen ops,
   concat (r_sent r) ++ r_buffer r ++ concat (r_chan r) = concat (accepted (new_relay plen) ops).
 
 (* with failures a datagram is lost as a whole: what was sent is still made of whole accepted
-   lines in order (at most once) *)
+   lines, each at most once, in arrival order *)
+Inductive sublist {A} : list A -> list A -> Prop :=
+| sub_nil : forall l, sublist [] l
+| sub_keep : forall x a b, sublist a b -> sublist (x :: a) (x :: b)
+| sub_skip : forall x a b, sublist a b -> sublist a (x :: b).
+
 Definition stmt_relay_no_split : Prop := forall plen ops,
   let r := rrun (new_relay plen) ops in
   exists groups : list (list bytes),
     r_sent r = map (@concat byte) groups /\
     Forall (fun g => g <> []) groups /\
-    exists dropped_mask : list bool,   (* which accepted lines made it into a sent datagram so far *)
-      length dropped_mask = length (accepted (new_relay plen) ops) /\
-      concat groups = map fst (filter snd (combine (accepted (new_relay plen) ops) dropped_mask)).
+    sublist (concat groups) (accepted (new_relay plen) ops).
 
 (* no datagram exceeds the packet length (for packet lengths that can hold at least one byte + newline) *)
 Definition stmt_relay_packet_bound : Prop := forall plen ops,
